@@ -76,8 +76,8 @@ class ConvHarness(Harness):
          R = (m_ar, s_ar, s_rn, s_rh, m_rn, m_rl) | None
              s_rn slave R beats accepted by the DUT; s_rh beat s_rn is being offered; m_rn master R beats; m_rl all received
        choice = ("burst", ...) | (aw_v, w_v, b_r, ar_v, r_r, aw_r, w_r, b_v, ar_r, r_v)"""
-    conf_first = 60
-    conf_every = 37
+    conf_first = 12
+    conf_every = 47
     cap = 2_000_000
     live_queries = (("live.stuck", COOP, PROGRESS, (),
                      "master and slave offer and accept everything, the transaction is not finished, no handshake ever happens"),)
@@ -375,11 +375,9 @@ class ConvHarness(Harness):
                 if not b_v:
                     return env, ("b.spurious", f"{self.bname(b)}: master sees b.valid=1 while the slave offers no response"), 0
                 if b_r:
-                    if self.sideband:
-                        if v[X["id"]] != bid:
-                            return env, ("b.id", f"{self.bname(b)}: write response has id {v[X['id']]}, request had {bid}"), 0
-                        if v[X["resp"]] != resp:
-                            return env, ("b.resp", f"{self.bname(b)}: write response has resp {v[X['resp']]}, slave answered {resp}"), 0
+                    if self.sideband and (v[X["id"]], v[X["resp"]]) != (bid, resp):
+                        return env, ("b.sideband", f"{self.bname(b)}: write response reaches the master with id={v[X['id']]} resp={v[X['resp']]}, "
+                                                   f"the slave answered id={bid} resp={resp}"), 0
                     m_b, prog = 1, True
             if W[8] in (1, 2) and not m_b and not b_r:
                 coop = False
@@ -438,11 +436,9 @@ class ConvHarness(Harness):
                     cov["bytes_read"] += len(info.lanes[m_rn])
                     if v[X["last"]] != (1 if m_rn == ln else 0):
                         return env, ("r.last", f"{self.bname(b)}: R beat {m_rn+1} of {ln+1} has last={v[X['last']]}"), 0
-                    if self.sideband:
-                        if v[X["id"]] != bid:
-                            return env, ("r.id", f"{self.bname(b)}: R beat {m_rn+1} has id {v[X['id']]}, request had {bid}"), 0
-                        if v[X["resp"]] != resp:
-                            return env, ("r.resp", f"{self.bname(b)}: R beat {m_rn+1} has resp {v[X['resp']]}, slave answered {resp}"), 0
+                    if self.sideband and (v[X["id"]], v[X["resp"]]) != (bid, resp):
+                        return env, ("r.sideband", f"{self.bname(b)}: R beat {m_rn+1} reaches the master with id={v[X['id']]} resp={v[X['resp']]}, "
+                                                   f"the slave sent every beat of the burst with id={bid} resp={resp}"), 0
                     if m_rn == ln:
                         m_rl = 1
                     m_rn, prog = m_rn + 1, True
